@@ -271,6 +271,19 @@ class Rewriter:
                     return ('%slet mut __i_%s: usize = %s;\n        while __i_%s < %s {%s%s    __i_%s += 1;\n        }' %
                             (pre, v, lo, v, bound, bind, body2, v))
                 text = self._rewrite_counted(text, hdr, build)
+            elif frag.startswith('extiter:'):
+                # R9: for X in RECV.ITERFN(ARGS) { B } with ITERFN an `impl Iterator` method ->
+                #     let __ms_X = RECV.VECFN(ARGS); index loop over the collected vector.
+                iterfn, vecfn = frag[len('extiter:'):].split('=')
+                hdr = r'\bfor\s+(\w+)\s+in\s+(.+?)\.' + re.escape(iterfn) + r'\((.*?)\)\s*\{'
+
+                def build(mm, body, iterfn=iterfn, vecfn=vecfn):
+                    x, recv, args = mm.group(1), mm.group(2).strip(), mm.group(3)
+                    self.log.append(('R9', 'for %s in %s.%s(%s) -> collected vector %s + index loop' % (x, recv, iterfn, args, vecfn)))
+                    body = self._with_step(body, '__i_%s += 1;' % x)
+                    return ('let __ms_%s = %s.%s(%s);\n            let mut __i_%s: usize = 0;\n            while __i_%s < __ms_%s.len() {\n                let %s = &__ms_%s[__i_%s];%s    __i_%s += 1;\n            }' %
+                            (x, recv, vecfn, args, x, x, x, x, x, x, body, x))
+                text = self._rewrite_counted(text, hdr, build)
             else:
                 raise SrcError('unknown loop rule ' + frag)
         return text
@@ -294,3 +307,25 @@ class Rewriter:
             raise SrcError('substitution anchor lost (%s): %r occurs %d times' % (rule, frm, n))
         self.log.append((rule, '%r -> %r x%d' % (frm, to, n)))
         return text.replace(frm, to)
+
+
+def find_closure_arg(text, call_anchor):
+    """locate `CALL(... |p| { body } ...)`; returns dict with positions or raises SrcError"""
+    m = mask(text)
+    a = m.find(call_anchor)
+    if a < 0 or m.find(call_anchor, a + 1) >= 0:
+        raise SrcError('closure call anchor %r not found exactly once' % call_anchor)
+    o = a + len(call_anchor) - 1
+    c = match_close(m, o)
+    mm = re.compile(r'\|\s*(\w+)\s*\|\s*\{').search(m, o, c)
+    if not mm:
+        raise SrcError('no closure literal in call %r' % call_anchor)
+    bo = mm.end() - 1
+    bc = match_close(m, bo)
+    # statement start: after the previous ; { or }
+    k = a
+    while k > 0 and m[k - 1] not in ';{}':
+        k -= 1
+    semi = m.find(';', c)
+    return {'call_open': o, 'call_close': c, 'cl_start': mm.start(), 'cl_end': bc + 1, 'param': mm.group(1),
+            'body': text[bo + 1:bc], 'stmt_start': k, 'stmt_end': semi + 1}
